@@ -2586,9 +2586,9 @@ class quantized_tanh(base_quantizer.BaseQuantizer):  # pylint: disable=invalid-n
 
   def __str__(self):
     flags = [str(self.bits)]
-    if self.use_stochastic_rounding:
+    if self.use_stochastic_rounding or self.symmetric or self.use_real_tanh:
       flags.append(str(int(self.use_stochastic_rounding)))
-    if self.symmetric:
+    if self.symmetric or self.use_real_tanh:
       flags.append(str(int(self.symmetric)))
     if self.use_real_tanh:
       flags.append(str(int(self.use_real_tanh)))
